@@ -90,6 +90,7 @@ class Monitor:
         self.prev = {}             # name -> Snap
         self.net = None
         self.seen = set()          # signatures already reported in this history
+        self.causes = set()        # codes of mechanism-level clauses violated so far in this history
         self.leaders = {}          # term -> [names] in order of first observation
         self.grants_delivered = {}  # (candidate, term) -> set(voters)
         self.votes = {}            # (voter, term) -> [candidates] (self-vote included)
@@ -118,7 +119,26 @@ class Monitor:
             self.prev[x.name] = Snap(x)
             self.last_applied[x.name] = 0
 
-    def add(self, clause, detail):
+    def add(self, clause, detail, code=None):
+        """A mechanism-level clause (or a clause that is its own root cause). ``code``: short name under which
+        later consequences in the same history are filed."""
+        earlier = self.causes - {code}
+        if code:
+            self.causes.add(code)
+        if earlier:      # once one mechanism is broken, breaks of others may follow from it (e.g. two leaders of one
+            #              term make honest acks wrong): file them as consequences, like the statement clauses
+            clause = "consequence-of-" + "+".join(sorted(earlier)) + "/" + clause
+        sig = f"{P}/{self.obl}/{clause}"
+        if sig not in self.seen:
+            self.seen.add(sig)
+            self.r.add(sig, detail)
+
+    def derived(self, clause, detail):
+        """A clause of the statement itself.  When mechanism-level clauses were already violated earlier in this
+        history the break is filed as their consequence (a deterministic function of the history), so that a break
+        with *no* known mechanism behind it keeps the plain signature."""
+        if self.causes:
+            clause = "consequence-of-" + "+".join(sorted(self.causes)) + "/" + clause
         sig = f"{P}/{self.obl}/{clause}"
         if sig not in self.seen:
             self.seen.add(sig)
@@ -159,7 +179,7 @@ class Monitor:
                     if (clt, cli) < (vlt, vli):
                         self.add("v2-vote-granted-to-less-up-to-date-log",
                                  f"{src} (last term {vlt}, index {vli}) granted term {t} to {dst} "
-                                 f"(last term {clt}, index {cli})")
+                                 f"(last term {clt}, index {cli})", code="v2")
         elif typ == "RaftAppendEntriesResponse":
             q = self.q_ae.get((src, dst))
             rec = q.pop(0) if q else None
@@ -178,7 +198,7 @@ class Monitor:
                                  f"{src} answered AppendEntries(term {rec['term']}, prev {rec['prev']}, "
                                  f"{rec['n']} entries) of leader {dst} with match_index={m}, but its log "
                                  f"differs from the leader's at index {k + 1} "
-                                 f"(follower {mine[k:k + 1]}, leader {ls.ents[k:k + 1]})")
+                                 f"(follower {mine[k:k + 1]}, leader {ls.ents[k:k + 1]})", code="r3ack")
 
     def vote(self, voter, term, cand):
         lst = self.votes.setdefault((voter, term), [])
@@ -187,7 +207,7 @@ class Monitor:
             if len(lst) > 1:
                 cls = "after-same-term-append-entries" if (voter, term) in self.same_term_ae else "other"
                 self.add(f"v1-two-votes-in-one-term/{cls}",
-                         f"{voter} voted for {lst} in term {term}")
+                         f"{voter} voted for {lst} in term {term}", code="v1")
 
     # ------------------------------------------------------------------ deliveries to a live node
     def on_deliver(self, ev, name):
@@ -227,25 +247,26 @@ class Monitor:
 
         # ---- r4: terms and commit index never decrease
         if new.term < old.term:
-            self.add("r4-term-decreased", f"{name}: term {old.term} -> {new.term} on {typ}")
+            self.add("r4-term-decreased", f"{name}: term {old.term} -> {new.term} on {typ}", code="r4term")
         if new.commit < old.commit:
-            self.add("r4-commit-index-decreased", f"{name}: commit_index {old.commit} -> {new.commit} on {typ}")
+            self.derived("r4-commit-index-decreased", f"{name}: commit_index {old.commit} -> {new.commit} on {typ}")
         # ---- a committed entry never disappears from / changes in the log of the node that committed it
         if new.ents[:old.commit] != old.ents[:old.commit]:
             k = next((i for i in range(old.commit) if new.ents[i:i + 1] != old.ents[i:i + 1]), 0)
-            self.add("committed-entry-removed-or-replaced",
+            self.derived("committed-entry-removed-or-replaced",
                      f"{name}: committed entry {k + 1} {old.ents[k:k + 1]} became {new.ents[k:k + 1]} on {typ} "
                      f"from {src}")
         # ---- r1: a leader never deletes or overwrites entries of its own log
         if old.state == L and new.state == L and old.term == new.term and new.ents[:len(old.ents)] != old.ents:
-            self.add("r1-leader-log-not-append-only", f"{name} term {new.term}: {old.ents} -> {new.ents} on {typ}")
+            self.add("r1-leader-log-not-append-only", f"{name} term {new.term}: {old.ents} -> {new.ents} on {typ}",
+                     code="r1")
         # ---- v3: leader of T only after quorum distinct grants for T
         if new.state == L and (old.state != L or old.term != new.term):
             voters = set(self.grants_delivered.get((name, new.term), ())) | {name}
             if len(voters) < self.quorum:
                 self.add("v3-leader-without-quorum-of-grants",
                          f"{name} became leader of term {new.term} with grants from {sorted(voters)} "
-                         f"(quorum {self.quorum})")
+                         f"(quorum {self.quorum})", code="v3")
         # ---- r3: leader commit rule
         if new.state == L and new.commit > old.commit:
             self.check_leader_commit(name, old, new, typ)
@@ -265,9 +286,8 @@ class Monitor:
                     a, b = ls[0], name
                     va = set(self.grants_delivered.get((a, new.term), ())) | {a}
                     vb = set(self.grants_delivered.get((b, new.term), ())) | {b}
-                    cls = "shared-voter" if va & vb else "disjoint-voters"
-                    self.add(f"two-leaders-in-one-term/{cls}",
-                             f"term {new.term}: {a} (voters {sorted(va)}) and {b} (voters {sorted(vb)})")
+                    self.derived("two-leaders-in-one-term",
+                                 f"term {new.term}: {a} (voters {sorted(va)}) and {b} (voters {sorted(vb)})")
         log_changed = new.ents != old.ents
         # ---- log matching
         if log_changed:
@@ -278,7 +298,7 @@ class Monitor:
                 i = next((j for j in range(m, 0, -1) if new.ents[j - 1][0] == o.ents[j - 1][0]), 0)
                 if i and new.ents[:i] != o.ents[:i]:
                     k = next(j for j in range(i) if new.ents[j] != o.ents[j])
-                    self.add("log-matching",
+                    self.derived("log-matching",
                              f"{name} and {other} both hold an entry (index {i}, term {new.ents[i - 1][0]}) but "
                              f"differ at index {k + 1}: {new.ents[k]} vs {o.ents[k]}")
                 if (new.state == F and len(new.ents) > len(o.ents) and o.state == L and o.term >= new.term
@@ -302,7 +322,7 @@ class Monitor:
                 continue
             for i, (e, t_obs) in self.committed.items():
                 if t_obs < s.term and s.ents[i - 1:i] != (e,):
-                    self.add("leader-completeness",
+                    self.derived("leader-completeness",
                              f"entry {i} {e} was committed by term {t_obs}; leader {y} of term {s.term} holds "
                              f"{s.ents[i - 1:i]} there")
                     return
@@ -341,20 +361,20 @@ class Monitor:
                f"({prev_i},{prev_t}), entries {[(e.get('index'), e.get('term')) for e in entries]}): log became " \
                f"{new.ents}, reference {exp}"
         if new.ents[:keep] != old.ents[:keep]:
-            self.add("r2-follower-removed-entries-without-conflict", what)
+            self.add("r2-follower-removed-entries-without-conflict", what, code="r2")
         else:
-            self.add("r2-follower-log-differs-from-append-rule", what)
+            self.add("r2-follower-log-differs-from-append-rule", what, code="r2")
 
     def check_leader_commit(self, name, old, new, typ):
         n = new.commit
         if n > len(new.ents):
-            self.add("r3-commit-index-beyond-log", f"{name}: commit_index {n}, log length {len(new.ents)}")
+            self.add("r3-commit-index-beyond-log", f"{name}: commit_index {n}, log length {len(new.ents)}", code="r3")
             return
         e = new.ents[n - 1]
         if e[0] != new.term:
             self.add("r3-leader-committed-entry-of-older-term-by-counting",
                      f"leader {name} of term {new.term} advanced commit_index {old.commit} -> {n}; entry {n} "
-                     f"has term {e[0]}")
+                     f"has term {e[0]}", code="r3term")
         holders = [y for y, s in self.prev.items() if s.ents[n - 1:n] == (e,)]
         if len(holders) < self.quorum:
             told = self.told.get((name, new.term), {})
@@ -370,7 +390,8 @@ class Monitor:
             self.add(f"r3-commit-without-majority-holding-entry/{cls}",
                      f"leader {name} term {new.term} committed index {n} {e}; logs holding it: {holders} "
                      f"(quorum {self.quorum}); acks it had: "
-                     f"{ {f: (v[0], [k for k in ('overclaim', 'stale') if v[1].get(k)]) for f, v in sorted(told.items())} }")
+                     f"{ {f: (v[0], [k for k in ('overclaim', 'stale') if v[1].get(k)]) for f, v in sorted(told.items())} }",
+                     code=None if cls == "overclaimed-ack" else "r3")
 
     # ------------------------------------------------------------------ applies (called from inside handlers)
     def on_apply(self, name, command):
@@ -378,17 +399,17 @@ class Monitor:
         c = cid(command)
         idx = next((e.index for e in node.log.entries_after(0) if cid(e.command) == c), None)
         if idx is None:
-            self.add("applied-command-not-in-own-log", f"{name} applied {c!r}")
+            self.derived("applied-command-not-in-own-log", f"{name} applied {c!r}")
             return
         la = self.last_applied[name]
         if idx != la + 1:
-            self.add("apply-order-gap-or-repeat", f"{name} applied index {idx} after index {la}")
+            self.derived("apply-order-gap-or-repeat", f"{name} applied index {idx} after index {la}")
         self.last_applied[name] = max(la, idx)
         cur = self.applied_at.get(idx)
         if cur is None:
             self.applied_at[idx] = (c, name)
         elif cur[0] != c:
-            self.add("state-machine-safety-different-commands-at-one-index",
+            self.derived("state-machine-safety-different-commands-at-one-index",
                      f"index {idx}: {cur[1]} applied {cur[0]!r}, {name} applied {c!r}")
 
     # ------------------------------------------------------------------ client side
@@ -410,7 +431,7 @@ class Monitor:
             i = v[0] if isinstance(v, tuple) and len(v) == 2 and isinstance(v[0], int) else None
             if i is None or i < 1 or i > s.commit or s.ents[i - 1][1] != c:
                 at = s.ents[i - 1:i] if isinstance(i, int) and i >= 1 else None
-                self.add("submit-future-resolved-with-foreign-entry",
+                self.derived("submit-future-resolved-with-foreign-entry",
                          f"submit({c!r}) on {name} resolved with {v!r}; entry committed there: {at}, "
                          f"commit_index {s.commit}")
 
@@ -573,7 +594,9 @@ def ex_liveness(case):
     hb = _int(case.get("hb"), 20, 50, 50)
     emin = _int(case.get("emin"), 100, 1000, 150)
     c2 = {"n": case.get("n"), "hb": hb, "eto": [emin, emin]}
-    mon = Monitor(Result(), obl, 3 + (_int(case.get("n"), 3, 10 ** 6) - 3) % 3)   # safety clauses judged in `safety`
+    # the safety clauses are judged in `safety`; here the monitor only names the mechanism-level clauses that were
+    # violated earlier in the history, so that a liveness break is filed as their consequence
+    mon = Monitor(Result(), obl, 3 + (_int(case.get("n"), 3, 10 ** 6) - 3) % 3)
     nodes, sms, n, hb, emin, espan = build_cluster(c2, mon, sn)
     mon.attach(nodes, sn.network)
     dmax = 10
@@ -623,19 +646,24 @@ def ex_liveness(case):
         state["cmds"].append(c)
         state["futs"].append(ld.submit({"op": "set", "key": "k", "value": c}))
 
+    def flag(clause, detail):
+        if mon.causes:
+            clause = "consequence-of-" + "+".join(sorted(mon.causes)) + "/" + clause
+        r.add(f"{P}/{obl}/{clause}", detail)
+
     def judge(e):
         state["judged"] = True
         ld = state["leader"]
         cmds = state["cmds"]
         if not ld.is_leader or ld.current_term != state["term"] or state["deposed"]:
-            r.add(f"{P}/{obl}/established-leader-deposed-on-fault-free-network",
+            flag("established-leader-deposed-on-fault-free-network",
                   f"{ld.name} was established leader of term {state['term']} at {state['t_est']} ms; at the horizon it "
                   f"is {ld.state.name} in term {ld.current_term} ({state['deposed']})")
         bad = [(x.name, sm.applied) for x, sm in zip(nodes, sms) if sm.applied != cmds]
         if state["deposed"]:
             pass        # (some of) the commands went to a node that had already lost the leadership: reported above
         elif bad:
-            r.add(f"{P}/{obl}/submitted-commands-not-applied-in-order-everywhere-within-horizon",
+            flag("submitted-commands-not-applied-in-order-everywhere-within-horizon",
                   f"leader {ld.name} term {state['term']} got {cmds}; {3 * hb + 5 * dmax} ms after the last submit: "
                   f"{bad[:3]} (commit indexes { {x.name: x.log.commit_index for x in nodes} })")
         for c, fut in zip(cmds, state["futs"]):
@@ -644,16 +672,16 @@ def ex_liveness(case):
                 i = v[0] if isinstance(v, tuple) and len(v) == 2 and isinstance(v[0], int) else None
                 ent = ld.log.get(i) if i else None
                 if ent is None or cid(ent.command) != c or i > ld.log.commit_index:
-                    r.add(f"{P}/{obl}/submit-future-resolved-with-foreign-entry", f"submit({c}) resolved with {v!r}")
+                    flag("submit-future-resolved-with-foreign-entry", f"submit({c}) resolved with {v!r}")
             elif not bad:
-                r.add(f"{P}/{obl}/submit-future-unresolved-after-apply", f"submit({c}) applied everywhere, future pending")
+                flag("submit-future-unresolved-after-apply", f"submit({c}) applied everywhere, future pending")
         sim.control.pause()
         return None
 
     sim.schedule(Event.once(time=Instant(10 ** 6), event_type="client.poll", fn=poll, daemon=True))
     script = [(_int(x, 0, 999, 0)) / 1000 for x in (case.get("timeouts") or []) if isinstance(x, (int, float))]
     rng = harness.RandomShim(sn.seed, script)
-    probe = harness.SimProbe(sim, max_per_instant=20000, max_events=150000, log=False)
+    probe = harness.SimProbe(sim, max_per_instant=20000, max_events=150000, log=False, on_event=mon.on_event)
     with sn.installed(raft_mod, rng=rng):          # start() draws the first election timeouts: inside the shim
         for x in nodes:
             sim.schedule(x.start())
